@@ -31,7 +31,7 @@ def mk_accepts(mk, val, mask, arg):
 
 class Exp:
     __slots__ = ('id', 'obj', 'fn', 'shape', 'slot', 'p', 'L', 'H', 'count', 'attached', 'saturated_list',
-                 'reported', 'seqs', 'reg', 'is_mon', 'died', 'site', 'text', 'file', 'line', 'moved', 'seqnamed')
+                 'reported', 'seqs', 'reg', 'is_mon', 'died', 'site', 'text', 'file', 'line', 'moved', 'seqnamed', 'deadseq')
 
     def sat(self):
         return self.died if self.is_mon else self.count >= self.L
@@ -92,6 +92,10 @@ class Model:
 
     # ---- helpers ---------------------------------------------------------------------------
     def cost_in_seq(self, e, sid):
+        if sid in e.deadseq:
+            # the sequence object is gone: an entry that had been passed stays passed ("nothing registered before
+            # it can match again"), an entry that was still pending has no predecessors left to wait for
+            return INFC if e.deadseq[sid] == 'passed' else 0
         if not e.reg.get(sid):
             return INFC
         c = 0
@@ -231,11 +235,12 @@ class Model:
             pred.trig.add('seq_teardown_pending')
         else:
             pred.trig.add('seq_teardown_clean')
+        for e in self.exps.values():
+            if s in e.seqs:
+                e.deadseq[s] = 'free' if e.reg.get(s) else 'passed'
+                pred.trig.add('seq_destroyed_while_named')
         for x in q.entries:
             self.exps[x].reg[s] = False
-        referencing = [e.id for e in self.exps.values() if s in e.seqs]
-        if referencing:
-            pred.cut = 'sequence destroyed while expectations %s still name it' % referencing
         pred.ctx.add('seq')
 
     def op_exp(self, pred, e, shape, slot, o, params):
@@ -261,6 +266,7 @@ class Model:
         x.text, x.file, x.line = sl['text'], sl['file'], sl['line']
         x.seqs = [p['s%d' % i] for i in range(s['nq'])]
         x.reg = {}
+        x.deadseq = {}
         self.exps[e] = x
         for sid in x.seqs:
             if sid in x.reg:
@@ -281,6 +287,7 @@ class Model:
         x.text, x.file, x.line = st['text'], st['file'], st['line']
         x.seqs = list(seqs)
         x.reg = {}
+        x.deadseq = {}
         self.exps[e] = x
         for sid in x.seqs:
             x.reg[sid] = True
@@ -340,7 +347,7 @@ class Model:
                     x = self.exps[e]
                     x.died = True
                     for sid in x.seqs:
-                        if sid in self.seqs and self.cost_in_seq(x, sid) == INFC:
+                        if (sid in self.seqs or sid in x.deadseq) and self.cost_in_seq(x, sid) == INFC:
                             pred.reports.append(dict(sev='N', kind='destr_seq', exp=e, seq=sid))
                             pred.trig.add('destr_out_of_seq')
                     x.count += 1
@@ -389,6 +396,10 @@ class Model:
 
     def op_call(self, pred, o, fn, *args):
         pred.outcome = self.do_call(pred, o, fn, args, nested=False)
+
+    def op_callx(self, pred, o, fn, *args):
+        pred.outcome = self.do_call(pred, o, fn, args, nested=False)
+        pred.trig.add('call_in_handler')
 
     def do_call(self, pred, o, fn, args, nested):
         ob = self.objs[o]
@@ -519,10 +530,13 @@ class Model:
                     result = ('exc', 'S', e.id, i)
                     pred.trig.add('se_throws')
                     return result
-                if mode == 2:
+                if mode == 2 or (mode == 3 and a0 > 0):
                     pred.clauses.append(('N{',))
                     pred.trig.add('nested_call')
-                    r = self.do_call(pred, e.p['nobj'], 'v', (e.p.get('narg', 0),), nested=True)
+                    if e.p['nobj'] == o and fn == 'v':
+                        pred.trig.add('recursive_call')
+                    narg = e.p.get('narg', 0) if mode == 2 else a0 - 1
+                    r = self.do_call(pred, e.p['nobj'], 'v', (narg,), nested=True)
                     pred.clauses.append(('N}',))
                     if r[0] in ('exc', 'fatal'):
                         result = r
@@ -571,6 +585,7 @@ class Model:
                 setattr(n, a, getattr(e, a))
             n.reg = dict(e.reg)
             n.seqs = list(e.seqs)
+            n.deadseq = dict(e.deadseq)
             m.exps[k] = n
         m.seqs = {}
         for k, q in self.seqs.items():
@@ -583,7 +598,7 @@ class Model:
         return m
 
     def key(self):
-        return (tuple(sorted((e.id, e.count, e.L, e.H, e.attached, e.saturated_list, e.reported, e.died, tuple(sorted(e.reg.items())))
+        return (tuple(sorted((e.id, e.count, e.L, e.H, e.attached, e.saturated_list, e.reported, e.died, tuple(sorted(e.reg.items())), tuple(sorted(e.deadseq.items())))
                              for e in self.exps.values())),
                 tuple(sorted((q.id, tuple(q.entries)) for q in self.seqs.values())),
                 tuple(sorted((o.id, tuple(o.mons), tuple(sorted((FNIDX[fn], tuple(fl['active']), tuple(fl['saturated'])) for fn, fl in o.funcs.items())))
@@ -610,6 +625,7 @@ class Model:
             x.text, x.file, x.line = sl['text'], sl['file'], sl['line']
             x.seqs = [p['s%d' % i] for i in range(s['nq'])]
             x.reg = {}
+            x.deadseq = {}
             self.exps[e] = x
         x = self.exps[e]
         sid = x.seqs[idx]
@@ -647,6 +663,7 @@ class Model:
         x.text, x.file, x.line = st['text'], st['file'], st['line']
         x.seqs = list(seqs)
         x.reg = {}
+        x.deadseq = {}
         self.exps[e] = x
         self.objs[o].mons.append(e)
 
